@@ -56,60 +56,61 @@ mod longest_capped__to;
 mod set_reach__mrt;
 mod set_reach__init;
 mod cp__ser;
-mod lex_dual_lat__ser;
-mod bool_lat__pari;
-mod lat_multi_improve__topar;
-mod lat_count_all__pari;
-mod lat_input__topar;
-mod lat_input__srcred;
-mod count_paths__to;
-mod count_paths__srcto;
-mod neg_basic__pari;
-mod neg_basic__src2;
-mod neg_basic__perm2;
-mod agg_depth__ser;
-mod agg_lattice__to;
-mod neg_rec_after__exp;
-mod agg_empty__to;
-mod agg_const_args__par;
-mod disj__par;
-mod disj__src1;
-mod disj__perm1;
-mod disj_nested__pari;
-mod rep_expr__ser;
-mod multi_head_disj__exp;
-mod mac_basic__par;
-mod mac_basic__src1;
-mod mac_basic__exp;
-mod mac_nested__par;
-mod mac_gensym_disj__exppar;
-mod mac_block__pari;
-mod stress_lat__ser;
-mod stress_rel__pari;
-mod rnd_core_03__par;
-mod rnd_core_06__ser;
-mod rnd_core_08__pari;
-mod rnd_core_11__par;
-mod rnd_core_14__ser;
-mod rnd_core_16__pari;
-mod rnd_core_19__par;
-mod rnd_core_22__ser;
-mod rnd_core_24__pari;
-mod rnd_core_27__par;
-mod rnd_core_30__ser;
-mod rnd_agg_02__pari;
-mod rnd_agg_05__par;
-mod rnd_agg_08__ser;
-mod rnd_agg_10__pari;
-mod rnd_agg_13__par;
-mod rnd_prec_01__ser;
-mod rnd_prec_02__to;
-mod rnd_prec_04__par;
-mod rnd_prec_05__topar;
-mod rnd_prec_07__pari;
-mod rnd_prea_01__ser;
-mod rnd_prea_03__pari;
-mod rnd_prea_06__par;
+mod lat_tree__ser;
+mod lex_lat__ser;
+mod lat_two_keys__pari;
+mod lat_pre_join__pari;
+mod lat_val_bound__pari;
+mod lat_input__gen;
+mod lat_input__runpar;
+mod count_paths__mrt;
+mod count_paths__init;
+mod neg_basic__run;
+mod neg_basic__redecl;
+mod neg_basic__exp;
+mod agg_depth__to;
+mod agg_user__par;
+mod agg_bound_mix__par;
+mod agg_empty_rel__par;
+mod agg_const_args__exppar;
+mod disj__topar;
+mod disj__srcred;
+mod disj__permpar;
+mod pat_args__ser;
+mod rep_expr__exp;
+mod neg_in_disj__par;
+mod mac_basic__topar;
+mod mac_basic__srcred;
+mod mac_capture__par;
+mod mac_nested__exppar;
+mod mac_local_names__pari;
+mod mac_disj__ser;
+mod stress_set__ser;
+mod rnd_core_01__pari;
+mod rnd_core_04__par;
+mod rnd_core_07__ser;
+mod rnd_core_09__pari;
+mod rnd_core_12__par;
+mod rnd_core_15__ser;
+mod rnd_core_17__pari;
+mod rnd_core_20__par;
+mod rnd_core_23__ser;
+mod rnd_core_25__pari;
+mod rnd_core_28__par;
+mod rnd_agg_01__ser;
+mod rnd_agg_03__pari;
+mod rnd_agg_06__par;
+mod rnd_agg_09__ser;
+mod rnd_agg_11__pari;
+mod rnd_agg_14__par;
+mod rnd_prec_01__to;
+mod rnd_prec_03__par;
+mod rnd_prec_04__topar;
+mod rnd_prec_06__pari;
+mod rnd_prec_08__ser;
+mod rnd_prea_02__ser;
+mod rnd_prea_04__pari;
+mod rnd_prea_07__par;
 
 fn lookup(name: &str) -> fn() -> Box<dyn Driven> {
    match name {
@@ -161,60 +162,61 @@ fn lookup(name: &str) -> fn() -> Box<dyn Driven> {
       "set_reach__mrt" => set_reach__mrt::make,
       "set_reach__init" => set_reach__init::make,
       "cp__ser" => cp__ser::make,
-      "lex_dual_lat__ser" => lex_dual_lat__ser::make,
-      "bool_lat__pari" => bool_lat__pari::make,
-      "lat_multi_improve__topar" => lat_multi_improve__topar::make,
-      "lat_count_all__pari" => lat_count_all__pari::make,
-      "lat_input__topar" => lat_input__topar::make,
-      "lat_input__srcred" => lat_input__srcred::make,
-      "count_paths__to" => count_paths__to::make,
-      "count_paths__srcto" => count_paths__srcto::make,
-      "neg_basic__pari" => neg_basic__pari::make,
-      "neg_basic__src2" => neg_basic__src2::make,
-      "neg_basic__perm2" => neg_basic__perm2::make,
-      "agg_depth__ser" => agg_depth__ser::make,
-      "agg_lattice__to" => agg_lattice__to::make,
-      "neg_rec_after__exp" => neg_rec_after__exp::make,
-      "agg_empty__to" => agg_empty__to::make,
-      "agg_const_args__par" => agg_const_args__par::make,
-      "disj__par" => disj__par::make,
-      "disj__src1" => disj__src1::make,
-      "disj__perm1" => disj__perm1::make,
-      "disj_nested__pari" => disj_nested__pari::make,
-      "rep_expr__ser" => rep_expr__ser::make,
-      "multi_head_disj__exp" => multi_head_disj__exp::make,
-      "mac_basic__par" => mac_basic__par::make,
-      "mac_basic__src1" => mac_basic__src1::make,
-      "mac_basic__exp" => mac_basic__exp::make,
-      "mac_nested__par" => mac_nested__par::make,
-      "mac_gensym_disj__exppar" => mac_gensym_disj__exppar::make,
-      "mac_block__pari" => mac_block__pari::make,
-      "stress_lat__ser" => stress_lat__ser::make,
-      "stress_rel__pari" => stress_rel__pari::make,
-      "rnd_core_03__par" => rnd_core_03__par::make,
-      "rnd_core_06__ser" => rnd_core_06__ser::make,
-      "rnd_core_08__pari" => rnd_core_08__pari::make,
-      "rnd_core_11__par" => rnd_core_11__par::make,
-      "rnd_core_14__ser" => rnd_core_14__ser::make,
-      "rnd_core_16__pari" => rnd_core_16__pari::make,
-      "rnd_core_19__par" => rnd_core_19__par::make,
-      "rnd_core_22__ser" => rnd_core_22__ser::make,
-      "rnd_core_24__pari" => rnd_core_24__pari::make,
-      "rnd_core_27__par" => rnd_core_27__par::make,
-      "rnd_core_30__ser" => rnd_core_30__ser::make,
-      "rnd_agg_02__pari" => rnd_agg_02__pari::make,
-      "rnd_agg_05__par" => rnd_agg_05__par::make,
-      "rnd_agg_08__ser" => rnd_agg_08__ser::make,
-      "rnd_agg_10__pari" => rnd_agg_10__pari::make,
-      "rnd_agg_13__par" => rnd_agg_13__par::make,
-      "rnd_prec_01__ser" => rnd_prec_01__ser::make,
-      "rnd_prec_02__to" => rnd_prec_02__to::make,
-      "rnd_prec_04__par" => rnd_prec_04__par::make,
-      "rnd_prec_05__topar" => rnd_prec_05__topar::make,
-      "rnd_prec_07__pari" => rnd_prec_07__pari::make,
-      "rnd_prea_01__ser" => rnd_prea_01__ser::make,
-      "rnd_prea_03__pari" => rnd_prea_03__pari::make,
-      "rnd_prea_06__par" => rnd_prea_06__par::make,
+      "lat_tree__ser" => lat_tree__ser::make,
+      "lex_lat__ser" => lex_lat__ser::make,
+      "lat_two_keys__pari" => lat_two_keys__pari::make,
+      "lat_pre_join__pari" => lat_pre_join__pari::make,
+      "lat_val_bound__pari" => lat_val_bound__pari::make,
+      "lat_input__gen" => lat_input__gen::make,
+      "lat_input__runpar" => lat_input__runpar::make,
+      "count_paths__mrt" => count_paths__mrt::make,
+      "count_paths__init" => count_paths__init::make,
+      "neg_basic__run" => neg_basic__run::make,
+      "neg_basic__redecl" => neg_basic__redecl::make,
+      "neg_basic__exp" => neg_basic__exp::make,
+      "agg_depth__to" => agg_depth__to::make,
+      "agg_user__par" => agg_user__par::make,
+      "agg_bound_mix__par" => agg_bound_mix__par::make,
+      "agg_empty_rel__par" => agg_empty_rel__par::make,
+      "agg_const_args__exppar" => agg_const_args__exppar::make,
+      "disj__topar" => disj__topar::make,
+      "disj__srcred" => disj__srcred::make,
+      "disj__permpar" => disj__permpar::make,
+      "pat_args__ser" => pat_args__ser::make,
+      "rep_expr__exp" => rep_expr__exp::make,
+      "neg_in_disj__par" => neg_in_disj__par::make,
+      "mac_basic__topar" => mac_basic__topar::make,
+      "mac_basic__srcred" => mac_basic__srcred::make,
+      "mac_capture__par" => mac_capture__par::make,
+      "mac_nested__exppar" => mac_nested__exppar::make,
+      "mac_local_names__pari" => mac_local_names__pari::make,
+      "mac_disj__ser" => mac_disj__ser::make,
+      "stress_set__ser" => stress_set__ser::make,
+      "rnd_core_01__pari" => rnd_core_01__pari::make,
+      "rnd_core_04__par" => rnd_core_04__par::make,
+      "rnd_core_07__ser" => rnd_core_07__ser::make,
+      "rnd_core_09__pari" => rnd_core_09__pari::make,
+      "rnd_core_12__par" => rnd_core_12__par::make,
+      "rnd_core_15__ser" => rnd_core_15__ser::make,
+      "rnd_core_17__pari" => rnd_core_17__pari::make,
+      "rnd_core_20__par" => rnd_core_20__par::make,
+      "rnd_core_23__ser" => rnd_core_23__ser::make,
+      "rnd_core_25__pari" => rnd_core_25__pari::make,
+      "rnd_core_28__par" => rnd_core_28__par::make,
+      "rnd_agg_01__ser" => rnd_agg_01__ser::make,
+      "rnd_agg_03__pari" => rnd_agg_03__pari::make,
+      "rnd_agg_06__par" => rnd_agg_06__par::make,
+      "rnd_agg_09__ser" => rnd_agg_09__ser::make,
+      "rnd_agg_11__pari" => rnd_agg_11__pari::make,
+      "rnd_agg_14__par" => rnd_agg_14__par::make,
+      "rnd_prec_01__to" => rnd_prec_01__to::make,
+      "rnd_prec_03__par" => rnd_prec_03__par::make,
+      "rnd_prec_04__topar" => rnd_prec_04__topar::make,
+      "rnd_prec_06__pari" => rnd_prec_06__pari::make,
+      "rnd_prec_08__ser" => rnd_prec_08__ser::make,
+      "rnd_prea_02__ser" => rnd_prea_02__ser::make,
+      "rnd_prea_04__pari" => rnd_prea_04__pari::make,
+      "rnd_prea_07__par" => rnd_prea_07__par::make,
       _ => panic!("no such program variant in this shard: {}", name),
    }
 }
